@@ -3,13 +3,15 @@ from rules.common import *
 from spec import tables
 
 
-def classification(ctx, R, rule, only=None):
+def classification(ctx, R, rule, only=None, enums=None):
     """Decide, for every variant of the three error enums, the constant returned by its
     PartialResult::is_incomplete impl, and compare with the oracle table.  Returns dict
     enum path -> {variant: bool} of the *extracted* classification."""
     result = {}
     for (enum, inc, term) in ((tables.V1_ERR, tables.V1_INCOMPLETE, tables.V1_TERMINAL),
                               (tables.V2_ERR, tables.V2_INCOMPLETE, tables.V2_TERMINAL)):
+        if enums is not None and enum not in enums:
+            continue
         a = ctx.fx.adts.get(enum)
         if not R.require(a is not None, rule, enum, 'error enum missing'):
             continue
@@ -45,6 +47,8 @@ def classification(ctx, R, rule, only=None):
     # BinaryParseError: Parse(e) -> class(e); InvalidUtf8 -> terminal
     enum = tables.V1_BERR
     a = ctx.fx.adts.get(enum)
+    if enums is not None and enum not in enums:
+        return result
     if R.require(a is not None, rule, enum, 'error enum missing'):
         p = ctx.method(enum, 'is_incomplete', 'PartialResult')
         ev, outs = ctx.entry(p)
